@@ -105,6 +105,7 @@ func freshSnapshot(p *Prog, fn *ssa.Function, v ssa.Value, depth int, seen map[s
 
 func runC13(c *Ctx, tier string) {
 	p := c.P
+	runPathCacheHoldsFullPaths(c, "C13-C1")
 	c.Rule("C13-W1", "who may delete: storage.Engine.Delete/DeleteByPrefix is called only from the frozen sites (vacuum, abort of never-committed objects, lost-race commit object, pool removal), each with its reason")
 	c.Rule("C13-R1", "the read path never re-resolves names: no function of the kernel, optimizer, lake scan operators, vector runtime or lake/data calls a name->commit resolver; positive witness in the semantic analyzer")
 	c.Rule("C13-M1", "cached snapshots are not mutated: every Snapshot mutator call has a receiver that is fresh in that function (NewSnapshot, Copy, a patch's diff) or a parameter whose callers pass fresh ones")
@@ -400,6 +401,7 @@ func runC14(c *Ctx, tier string) {
 	c.Rule("C14-O1", "data before metadata: a commit is reached only after every writer Close / CreateVector returned nil (= C17-O2)")
 	c.Rule("C14-S1", "object order is deterministic: the lister's object sort and the load sort are stable sorts (= C06-S1 on the lake path)")
 	runLakeErrDiscipline(c, "C14-E1")
+	runSeekLookupScansAll(c, "C14-L1")
 	runLakeErrNotConverted(c, "C14-E2")
 	fn := p.Func("(*lake/commits.Store).Vacuumable")
 	if fn == nil {
@@ -501,6 +503,7 @@ func stableSorts(c *Ctx, rule string, fns []string) {
 
 func runC15(c *Ctx, tier string) {
 	p := c.P
+	runPathCacheHoldsFullPaths(c, "C15-C1")
 	c.Rule("C15-K1", "a patch's view reflects everything its mutators record: Lookup/Select/SelectAll read every field AddDataObject/DeleteObject write, HasVector every field AddVector/DeleteVector write")
 	c.Rule("C15-P3", "merge and revert objects are built against the tip inside the retry loop (= C12-P3)")
 	c.Rule("C15-E1", "conflict errors abort before any write: errors of Diff / Patch.Revert / PatchOfPath are returned from the constructor, which runs before commits.Put")
